@@ -2,6 +2,7 @@
 //! E2 — the explicit-state exploration of the input-cursor machine (module `cursor`).
 
 pub mod cursor;
+pub mod seqs;
 
 use chumsky::error::Rich;
 use chumsky::input::IterInput;
@@ -287,6 +288,7 @@ pub fn run(unit: &str, tier: Tier, cx: &ShardCtx) -> UnitResult {
         "graphemes" => run_graphemes(unit, if q { 4 } else { 6 }, cx),
         "iterinput" => run_iter(unit, if q { 4 } else { 5 }, 4, cx, None),
         "cursor-machine" => cursor::run(unit, if q { 4 } else { 5 }, cx),
+        "primitive-seq-flavours" | "primitive-seq-flavours+unbounded" => seqs::run(unit, !q, cx),
         "pull-budgets" => pulls::run(unit, if q { &[0, 1, 2, 8, 16, 32, 64, 128] } else { &[0, 1, 2, 8, 16, 32, 64, 128, 256, 512, 1024, 2048] }, cx),
         _ => panic!("unknown unit {unit}"),
     }
@@ -303,6 +305,23 @@ pub fn replay(v: &Value) -> Result<Option<String>, String> {
             Ok(r.mismatches.first().map(|m| m["detail"].as_str().unwrap_or("").to_string()))
         }
         "cursor" => cursor::replay(v),
+        "pulls" => {
+            let tier = if v["tier"].as_str() == Some("thorough") { Tier::Thorough } else { Tier::Quick };
+            let r = run("pull-budgets", tier, &cx);
+            Ok(r.mismatches.iter().find(|m| m["case"] == v["case"] && m["input"] == v["input"]).map(|m| format!("{} at {}: {}", m["case"].as_str().unwrap_or(""), m["input"].as_str().unwrap_or(""), m["detail"].as_str().unwrap_or(""))))
+        }
+        "seqs" => {
+            // small unit: re-run it (its four working shards) and look the case up
+            let unit = v["unit"].as_str().unwrap_or("primitive-seq-flavours");
+            for shard in 0..4 {
+                let cx = ShardCtx { shard, nshards: 4, known: Sw::NONE, skip: vec![], progress: &progress };
+                let r = seqs::run_filtered(unit, v["tier"].as_str() == Some("thorough"), &cx, Some((v["case"].as_str().unwrap_or(""), v["input"].as_str().unwrap_or(""))));
+                if let Some(m) = r.mismatches.first() {
+                    return Ok(Some(format!("{} on {:?}: {}", m["case"].as_str().unwrap_or(""), m["input"].as_str().unwrap_or(""), m["detail"].as_str().unwrap_or(""))));
+                }
+            }
+            Ok(None)
+        }
         o => Err(format!("unknown engine {o}")),
     }
 }
